@@ -490,3 +490,83 @@ Proof.
   - destruct (claimer_claim d ph items mf ml flt) as [[[x y]|e] d']; reflexivity.
   - destruct (unclaim_inter d items flt) as [[[x y]|e] d']; reflexivity.
 Qed.
+
+(* ---- node-level assignment of a comment keeps the invariant ---------------------------------------- *)
+Lemma nodup_app_intro : forall (l1 l2 : list Z), NoDup l1 -> NoDup l2 -> (forall x, In x l1 -> ~ In x l2) ->
+  NoDup (l1 ++ l2).
+Proof.
+  induction l1 as [|x l1 IH]; simpl; intros l2 N1 N2 D; auto. inversion N1; subst. constructor.
+  - intro I. apply in_app_or in I. destruct I as [I|I]; [contradiction | apply (D x); auto].
+  - apply IH; auto; intros y Iy; apply D; right; exact Iy.
+Qed.
+
+Lemma count_insert_at : forall c' pos c l,
+  count_z c' (insert_at pos c l) = (count_z c' l + (if Z.eqb c c' then 1 else 0))%nat.
+Proof.
+  intros. unfold insert_at. rewrite !count_z_app. simpl.
+  rewrite <- (firstn_skipn pos l) at 3. rewrite count_z_app. destruct (c =? c'); lia.
+Qed.
+
+Lemma nodup_zb_ok' : forall l, nodup_zb l = true -> NoDup l.
+Proof. exact nodup_zb_ok. Qed.
+
+Lemma attach_inv : forall d tb s pos after new c,
+  Inv (d, tb) -> attach_ok (d, tb) s new c = true -> Inv (estep (d, tb) (EAttach s pos after new c)).
+Proof.
+  intros d tb s pos after new c [ND [OI SS]] OK. simpl in ND, OI, SS. unfold attach_ok in OK. simpl in OK.
+  apply andb_prop in OK. destruct OK as [OK SL]. apply andb_prop in OK. destruct OK as [OK OW].
+  apply andb_prop in OK. destruct OK as [OK EX]. apply andb_prop in OK. destruct OK as [OK ONLY].
+  apply andb_prop in OK. destruct OK as [NDn FRESH]. apply Nat.eqb_eq in OW. apply nodup_zb_ok in NDn.
+  assert (FR : forall t, In t new -> ~ In (t_id t) (ids d)).
+  { intros t I J. rewrite forallb_forall in FRESH. specialize (FRESH t I). apply negb_true_iff in FRESH.
+    assert (existsb (Z.eqb (t_id t)) (map t_id d) = true); [|congruence].
+    apply existsb_exists. exists (t_id t). split; auto. apply Z.eqb_refl. }
+  assert (CF : ~ In c (ids d)).
+  { apply existsb_exists in EX. destruct EX as [t [I E]]. apply Z.eqb_eq in E. subst c. apply FR; auto. }
+  simpl. destruct (insert_after d after (set_claimed c true new)) as [d'|] eqn:INS; [|split; [|split]; auto].
+  assert (SHAPE : exists a b, d = a ++ b /\ d' = a ++ set_claimed c true new ++ b).
+  { unfold insert_after in INS. destruct after as [a0|].
+    - destruct (split_at a0 d) as [[p [|x b]]|] eqn:S; try discriminate. inversion INS; subst d'.
+      apply split_at_spec in S. destruct S as [Hd _]. exists (p ++ [x]), b.
+      split; [rewrite Hd, <- app_assoc; reflexivity | rewrite <- app_assoc; reflexivity].
+    - inversion INS; subst d'. exists [], d. split; reflexivity. }
+  destruct SHAPE as [a [b [Hd Hd']]].
+  assert (IN' : forall t', In t' d' -> In t' d \/ exists t0, In t0 new /\ t' = (if t_id t0 =? c then set_flag true t0 else t0)).
+  { intros t' I. rewrite Hd' in I. apply in_app_or in I. destruct I as [I|I]; [left; rewrite Hd; apply in_or_app; auto|].
+    apply in_app_or in I. destruct I as [I|I]; [|left; rewrite Hd; apply in_or_app; auto].
+    right. apply in_set_claimed in I. exact I. }
+  unfold Inv; simpl. split; [|split].
+  - rewrite Hd'. unfold ids. rewrite !map_app.
+    eapply Permutation.Permutation_NoDup; [apply Permutation.Permutation_app_swap_app|].
+    apply nodup_app_intro.
+    + fold (ids (set_claimed c true new)). rewrite set_claimed_ids. exact NDn.
+    + rewrite <- map_app, <- Hd. exact ND.
+    + intros x I. fold (ids (set_claimed c true new)) in I. rewrite set_claimed_ids in I.
+      apply in_map_iff in I. destruct I as [t [E I]]. subst x. rewrite <- map_app, <- Hd. apply FR; auto.
+  - intros t' I' C'. pose proof (owners_tset (t_id t') tb s (insert_at pos c (tget tb s))) as O.
+    rewrite count_insert_at in O.
+    destruct (IN' t' I') as [Id|[t0 [I0 E0]]].
+    + assert (NE : (c =? t_id t') = false).
+      { apply Z.eqb_neq. intro E. apply CF. rewrite E. apply in_map; auto. }
+      rewrite NE in O. assert (OWN : owners (t_id t') (tset tb s (insert_at pos c (tget tb s))) = owners (t_id t') tb) by lia.
+      rewrite OWN. apply OI; auto.
+    + assert (C0 : is_comment t0 = true) by (subst t'; destruct (t_id t0 =? c); exact C').
+      rewrite forallb_forall in ONLY. specialize (ONLY t0 I0). rewrite C0 in ONLY. simpl in ONLY.
+      rewrite ONLY in E0. subst t'. apply Z.eqb_eq in ONLY. simpl in O |- *. rewrite ONLY in O |- *.
+      rewrite Z.eqb_refl in O. split; [lia|]. split; intros; auto; lia.
+  - destruct s as [n|n|r]; try (apply tget_tset_rep_small; auto); apply slots_small_tset; auto;
+      destruct (tget tb _) as [|y l] eqn:TG; try discriminate; unfold insert_at; destruct pos; simpl; lia.
+Qed.
+
+Theorem estep_inv : forall st o, Inv st -> eop_ok st o = true -> Inv (estep st o).
+Proof.
+  intros [d tb] o H OK. destruct o as [o|s pos after new c].
+  - apply cstep_inv; auto.
+  - apply attach_inv; auto.
+Qed.
+
+Theorem ehistory_inv : forall ops st, Inv st -> ehist_ok ops st = true -> Inv (fold_left estep ops st).
+Proof.
+  induction ops as [|o ops IH]; simpl; intros st H OK; auto.
+  apply andb_prop in OK. destruct OK as [O1 O2]. apply IH; auto. apply estep_inv; auto.
+Qed.
